@@ -134,6 +134,13 @@ func (i *Instance) Servers() []ServerListener { return i.servers }
 // Stop stops all servers contained in i. It does NOT
 // execute shutdown callbacks.
 func (i *Instance) Stop() error {
+	// a graceful server's Serve loop returns as soon as its Stop
+	// begins, long before Stop has drained the connections in flight;
+	// hold the wait group so that Wait() does not return until the
+	// servers have actually finished stopping
+	i.wg.Add(1)
+	defer i.wg.Done()
+
 	// stop the servers
 	for _, s := range i.servers {
 		if gs, ok := s.server.(GracefulServer); ok {
